@@ -9,4 +9,6 @@ Extraction "model.ml"
   (* Codec *) enc size dec has_type ty_ok guards_fixed guards_pinned utf8_valid
   (* Db *) db_new exec transaction elements out_edges in_edges node_count edge_from edge_to
            imap_key kvs_get dbv_eqb dbv_cmp
-  (* FileWal *) trace crash recover walrev_fixed walrev_pinned well_positioned.
+  (* FileWal *) trace crash recover walrev_fixed walrev_pinned well_positioned
+  (* ValueIndex *) store_db_value load_db_value store_kv load_kv remove_value remove_kv fresh_ix lookup
+                   is_value vi_index vi_type vi_size wf_value utf8_lossy.
